@@ -67,10 +67,19 @@ def _is_guard_ref(ctx: Ctx, expr, f, guard: Guard) -> bool:
   if guard.kind == 'tls-attr':
     return (isinstance(expr, ast.Attribute) and expr.attr == guard.attr and
             ctx.p.resolve(expr.value, f) == guard.qual)
-  return (isinstance(expr, ast.Name) and
-          ctx.p._resolve_name(expr.id, f) == guard.qual) or (
-              isinstance(expr, ast.Attribute) and
-              ctx.p.resolve(expr, f) == guard.qual)
+  short = guard.qual.rsplit('.', 1)[1]
+  gmod = guard.qual.rsplit('.', 1)[0]
+  if isinstance(expr, ast.Name):
+    if expr.id != short:
+      return False
+    s = f
+    while s is not None and not hasattr(s, 'tree'):
+      if hasattr(s, 'local_names') and expr.id in s.local_names():
+        return False
+      s = s.parent
+    return f.module.name == gmod
+  return isinstance(expr, ast.Attribute) and expr.attr == short and (
+      ctx.p.resolve(expr.value, f) == gmod)
 
 
 def classify_guard_functions(ctx: Ctx, guard: Guard):
